@@ -43,7 +43,9 @@ def run(tier, seed):
               dict(name='C13_pausefault', progs=C.fam(['P04', 'P14', 'P20', 'P22']), plans=pfault, alphabet=['pause', 'play', 'resume'], k=3),
               dict(name='C13_restore', progs=C.fam(progs), plans=saves, alphabet=['restore', 'resume'], k=2, run_kw=rkn,
                    overrides=[('MaxRestores', 'MCMaxRestores')], extra_defs='MCMaxRestores == 1\n'),
-              dict(name='C13_restore_mid', progs=C.fam(progs), plans=saves_mid, alphabet=['restore', 'resume'], k=3, run_kw={'medium': 'pickle', 'listener': False}),
+              # (not P24: its steps consume their mutable arguments in place, which a checkpoint written after the step ran - and before
+              #  the state changed - rightly shows)
+              dict(name='C13_restore_mid', progs=C.fam([p for p in progs if p != 'P24']), plans=saves_mid, alphabet=['restore', 'resume'], k=3, run_kw={'medium': 'pickle', 'listener': False}),
               dict(name='C13_hookpause', progs=C.fam(['P03', 'P06', 'P10', 'P13', 'P21', 'P22']), plans=hp, alphabet=['play', 'resume', 'pause'], k=3)]
         mc.append(dict(name='C13_hookpause', progs=C.fam(['P03', 'P06', 'P10', 'P13', 'P21', 'P22']), plans=hp, alphabet=['play', 'resume', 'pause'], k=4, invariants=INV[:1] + INV[2:]))
         mc.append(dict(name='C13_pausefault', progs=C.fam(progs), plans=pfault, alphabet=['pause', 'play', 'resume'], k=3, invariants=INV[:1]))
